@@ -13,7 +13,7 @@ Proof. induction s as [|c s IH]; cbn [chars of_chars]; congruence. Qed.
 
 Lemma emit_rev k v : emit (rev (chars k)) (rev_append (chars v) []) = (k, v).
 Proof.
-  unfold emit. rewrite rev_append_rev, app_nil_r, !rev_involutive, !of_chars_chars. reflexivity.
+  unfold emit. rewrite !rev_append_rev, !app_nil_r, !rev_involutive, !of_chars_chars. reflexivity.
 Qed.
 
 (* ---- the state machine ---- *)
@@ -540,4 +540,172 @@ Definition ex_var (secret_text : string) : list entry :=
 Lemma ex_var_public_eq a b : Forall2 public_eq (ex_var a) (ex_var b).
 Proof.
   unfold ex_var. repeat constructor; cbn; intros; try discriminate; reflexivity.
+Qed.
+
+(* ---------------------------------------------------------------------------------------------------------
+   real interpreters (names they treat specially) and the known finding C17-file-shadows-variable
+   --------------------------------------------------------------------------------------------------------- *)
+Lemma mem_str_false_not_in k l : mem_str k l = false -> ~ In k l.
+Proof.
+  unfold mem_str. intros H Hin. assert (existsb (String.eqb k) l = true) as E; [|congruence].
+  apply existsb_exists. exists k. split; [exact Hin|apply String.eqb_refl].
+Qed.
+
+Lemma mem_str_true_in k l : mem_str k l = true -> In k l.
+Proof.
+  unfold mem_str. intros H. apply existsb_exists in H. destruct H as (x & Hin & E).
+  apply String.eqb_eq in E. subst. exact Hin.
+Qed.
+
+Lemma pair_ok_in_split sp l : forallb (pair_ok_in sp) l = true ->
+  forallb pair_ok l = true /\ exports_special sp l = false.
+Proof.
+  induction l as [|kv l IH]; intros H; [split; reflexivity|].
+  cbn [forallb] in H. apply andb_prop in H. destruct H as [Hkv Hl].
+  unfold pair_ok_in in Hkv. apply andb_prop in Hkv. destruct Hkv as [Hok Hns].
+  destruct (IH Hl) as [IH1 IH2]. split.
+  - cbn [forallb]. rewrite Hok, IH1. reflexivity.
+  - unfold exports_special in *. cbn [existsb]. rewrite IH2. apply negb_true_iff in Hns. rewrite Hns. reflexivity.
+Qed.
+
+(* outside the interpreter's special names the rendering is faithful in that interpreter *)
+Theorem shell_faithful_list_in p sp : params_ok p = true ->
+  forall l, forallb (pair_ok_in sp) l = true -> sh_eval_in sp (render_shell p l) = Exports l.
+Proof.
+  intros Hp l Hl. destruct (pair_ok_in_split sp l Hl) as [Hok Hns].
+  unfold sh_eval_in. rewrite (shell_faithful_list p Hp l Hok), Hns. reflexivity.
+Qed.
+
+Theorem shell_faithful_in p sp : params_ok p = true ->
+  forall k v, valid_name k = true -> mem_str k sp = false -> no_nul v = true ->
+  sh_eval_in sp (render_shell p [(k, v)]) = Exports [(k, v)].
+Proof.
+  intros Hp k v Hk Hs Hv. apply shell_faithful_list_in; [exact Hp|].
+  cbn [forallb]. unfold pair_ok_in, pair_ok. cbn [fst snd]. rewrite Hk, Hv, Hs. reflexivity.
+Qed.
+
+(* ... and for a special name it is not: bash refuses to assign UID *)
+Theorem shell_faithful_refuted p : params_ok p = true ->
+  exists sp k v, In sp interpreters /\ valid_name k = true /\ no_nul v = true
+                 /\ sh_eval_in sp (render_shell p [(k, v)]) <> Exports [(k, v)].
+Proof.
+  intros Hp. exists bash_special, "UID", "1000".
+  split; [right; left; reflexivity|]. split; [reflexivity|]. split; [reflexivity|].
+  unfold sh_eval_in. rewrite (shell_faithful p Hp "UID" "1000" eq_refl eq_refl).
+  cbn. intros H. discriminate H.
+Qed.
+
+(* entries *)
+Definition entry_ok_in (sp : list string) (e : entry) : bool :=
+  entry_ok e && match e_kind e with KOther => true | _ => negb (mem_str (e_key e) sp) end.
+
+Lemma entry_ok_in_ok sp es : forallb (entry_ok_in sp) es = true -> forallb entry_ok es = true.
+Proof.
+  induction es as [|e es IH]; intros H; [reflexivity|]. cbn [forallb] in *.
+  apply andb_prop in H. destruct H as [He Hes]. unfold entry_ok_in in He. apply andb_prop in He.
+  destruct He as [He _]. rewrite He, (IH Hes). reflexivity.
+Qed.
+
+Lemma scalars_not_special p sp es : forallb (entry_ok_in sp) es = true ->
+  Forall (fun kv : string * (string * bool) => mem_str (fst kv) sp = false) (scalars p es).
+Proof.
+  induction es as [|e es IH]; intros H; cbn [scalars]; [constructor|].
+  cbn [forallb] in H. apply andb_prop in H. destruct H as [He Hes].
+  unfold entry_ok_in in He. apply andb_prop in He. destruct He as [_ He].
+  unfold scalar_text. destruct (e_kind e); auto; constructor; auto; cbn [fst]; apply negb_true_iff; exact He.
+Qed.
+
+Lemma exports_special_keys sp (l : list (string * string)) :
+  Forall (fun k => mem_str k sp = false) (map fst l) -> exports_special sp l = false.
+Proof.
+  unfold exports_special. induction l as [|kv l IH]; intros H; [reflexivity|].
+  cbn [map] in H. inversion H as [|? ? Hk Hl]; subst. cbn [existsb]. rewrite Hk, (IH Hl). reflexivity.
+Qed.
+
+Lemma Forall_map_fst {A} (P : string -> Prop) (l : list (string * A)) :
+  Forall (fun kv => P (fst kv)) l -> Forall P (map fst l).
+Proof. induction 1; cbn [map]; constructor; auto. Qed.
+
+Lemma env_pairs_not_special p sp redact pretend path_of vars files :
+  forallb (entry_ok_in sp) vars = true -> forallb (entry_ok_in sp) files = true ->
+  exports_special sp (env_pairs p redact pretend path_of vars files) = false.
+Proof.
+  intros Hv Hf. apply exports_special_keys. unfold env_pairs. rewrite map_app. apply Forall_app. split.
+  - rewrite map_fst_var_pairs. apply Forall_map_fst, Forall_sort, (scalars_not_special p sp vars Hv).
+  - unfold file_pairs. rewrite map_fst_number_paths. apply Forall_map_fst, Forall_sort, (scalars_not_special p sp files Hf).
+Qed.
+
+Theorem shell_script_faithful_in p sp redact pretend path_of vars files :
+  params_ok p = true -> forallb (entry_ok_in sp) vars = true -> forallb (entry_ok_in sp) files = true ->
+  (forall i, no_nul (path_of i) = true) ->
+  sh_eval_in sp (shell_script p redact pretend path_of vars files)
+  = Exports (env_pairs p redact pretend path_of vars files).
+Proof.
+  intros Hp Hv Hf Hpath. unfold sh_eval_in.
+  rewrite (shell_script_faithful p redact pretend path_of vars files Hp (entry_ok_in_ok sp vars Hv)
+             (entry_ok_in_ok sp files Hf) Hpath).
+  rewrite (env_pairs_not_special p sp redact pretend path_of vars files Hv Hf). reflexivity.
+Qed.
+
+Definition uid_var : list entry :=
+  [ {| e_key := "UID"; e_kind := KStr; e_text := "1000"; e_secret := false; e_unknown := false |} ].
+
+Theorem shell_script_faithful_refuted p : params_ok p = true ->
+  exists sp vars, In sp interpreters /\ forallb entry_ok vars = true
+    /\ sh_eval_in sp (shell_script p false false (fun _ => "") vars [])
+       <> Exports (env_pairs p false false (fun _ => "") vars []).
+Proof.
+  intros Hp. exists bash_special, uid_var. split; [right; left; reflexivity|]. split; [reflexivity|].
+  unfold sh_eval_in.
+  rewrite (shell_script_faithful p false false (fun _ => "") uid_var [] Hp eq_refl eq_refl (fun _ => eq_refl)).
+  cbn. intros H. discriminate H.
+Qed.
+
+(* every scalar entry of environmentVariables that no scalar entry of `files` shadows ends up exported with exactly
+   its value (its placeholder when it is a hidden secret) *)
+Theorem shell_exports_each_var_partial p sp redact pretend path_of vars files e t :
+  params_ok p = true -> forallb (entry_ok_in sp) vars = true -> forallb (entry_ok_in sp) files = true ->
+  (forall i, no_nul (path_of i) = true) ->
+  NoDup (map e_key vars) -> shadowed p files (e_key e) = false ->
+  In e vars -> scalar_text p e = Some t ->
+  exists l, sh_eval_in sp (shell_script p redact pretend path_of vars files) = Exports l
+            /\ sh_lookup (e_key e) l = Some (if e_secret e && redact then sp_secret p else t).
+Proof.
+  intros Hp Hv Hf Hpath Hnd Hsh Hin Ht.
+  exists (env_pairs p redact pretend path_of vars files). split; [apply shell_script_faithful_in; auto|].
+  unfold env_pairs. rewrite sh_lookup_app_left.
+  - apply sh_lookup_nodup.
+    + rewrite map_fst_var_pairs. apply sort_nodup, scalars_nodup, Hnd.
+    + unfold var_pairs.
+      change (e_key e, if e_secret e && redact then sp_secret p else t)
+        with ((fun kv : string * (string * bool) =>
+                 (fst kv, if snd (snd kv) && redact then sp_secret p else fst (snd kv))) (e_key e, (t, e_secret e))).
+      apply in_map. rewrite sort_in. apply scalars_in; assumption.
+  - unfold file_pairs. rewrite map_fst_number_paths, sort_keys_in. apply mem_str_false_not_in. exact Hsh.
+Qed.
+
+(* the shadowed case: the same key as a scalar entry of `files` — the variable gets the temporary file's path *)
+Definition shadow_vars : list entry :=
+  [ {| e_key := "K"; e_kind := KStr; e_text := "value"; e_secret := false; e_unknown := false |} ].
+Definition shadow_files : list entry :=
+  [ {| e_key := "K"; e_kind := KStr; e_text := "content"; e_secret := false; e_unknown := false |} ].
+Definition shadow_entry : entry :=
+  {| e_key := "K"; e_kind := KStr; e_text := "value"; e_secret := false; e_unknown := false |}.
+
+Theorem shell_exports_each_var_refuted p : params_ok p = true ->
+  exists redact pretend path_of vars files e t,
+    forallb entry_ok vars = true /\ forallb entry_ok files = true /\ (forall i, no_nul (path_of i) = true)
+    /\ NoDup (map e_key vars) /\ NoDup (map e_key files) /\ In e vars /\ scalar_text p e = Some t
+    /\ kf_file_shadows p vars files = true
+    /\ ~ (exists l, sh_eval (shell_script p redact pretend path_of vars files) = Exports l
+                    /\ sh_lookup (e_key e) l = Some (if e_secret e && redact then sp_secret p else t)).
+Proof.
+  intros Hp. exists false, false, (fun _ => "/tmp/esc-0"), shadow_vars, shadow_files, shadow_entry, "value".
+  split; [reflexivity|]. split; [reflexivity|]. split; [intros; reflexivity|].
+  split; [repeat constructor; intros []|]. split; [repeat constructor; intros []|].
+  split; [left; reflexivity|]. split; [reflexivity|]. split; [reflexivity|].
+  intros (l & Hl & Hlook).
+  rewrite (shell_script_faithful p false false (fun _ => "/tmp/esc-0") shadow_vars shadow_files Hp eq_refl eq_refl
+             (fun _ => eq_refl)) in Hl.
+  injection Hl as <-. cbn in Hlook. discriminate Hlook.
 Qed.
